@@ -60,3 +60,25 @@ Theorem C15_error_types_documented :
   (List.forallb call_site_ok call_sites = true).
 Proof. exact (conj etypes_are_documented (conj all_etypes_complete call_sites_documented)). Qed.
 Print Assumptions C15_error_types_documented.
+
+(* The error kinds a state of the machine raises are those of the Go source's clause for that state (Proofs/StateErrors.v over
+   the table go_state_errors REGENERATED from /repo/url/parser.go on every run: the kinds passed to handle*Error* calls inside
+   each `case StateX:`): every error a step returns or records is one the clause raises directly or one the host parser
+   raises (host states only), and conversely every listed kind is raised by some concrete step - so a handleError call added
+   to, dropped from or changed in a clause of the Go switch breaks an obligation even if no generated input meets it. *)
+From Verif Require Import Gen.Transitions Proofs.StateErrors.
+
+Theorem C15_step_errors_are_the_go_clause_kinds : forall idna_raw c inp base ov m,
+  incl (errors_of (step idna_raw c inp base ov m) (m_url m)) (direct_errors (m_state m) ++ called_errors (m_state m)).
+Proof. exact step_errors_allowed. Qed.
+Print Assumptions C15_step_errors_are_the_go_clause_kinds.
+
+Theorem C15_go_clause_kinds_are_all_raised : forall s t, In t (direct_errors s ++ called_errors s) <-> raises s t.
+Proof. exact allowed_exact. Qed.
+Print Assumptions C15_go_clause_kinds_are_all_raised.
+
+Theorem C15_recorded_errors_only_grow : forall idna_raw c inp base ov m u',
+  outcome_url (step idna_raw c inp base ov m) = Some u' -> u_verrs u' = u_verrs (m_url m) ++ new_verrs (m_url m) u'.
+Proof. exact step_verrs_extend. Qed.
+Print Assumptions C15_recorded_errors_only_grow.
+
